@@ -99,6 +99,21 @@ def run(tier):
     record("AcquireTrace reports a stale incumbent", _rejected(_tlc_trace("AcquireTrace", [aq[0], dict(aq[1], mu_max=1)])))
     record("AcquireTrace reports a model not refitted to the new point", _rejected(_tlc_trace("AcquireTrace", [aq[0], dict(aq[1], gp_n=3)])))
 
+    # --- TestRunTrace (records of the repository's own tests)
+    adv = {"ev": "Advance", "m": 25, "before": {"cls": "GibbsChain", "samples": 1, "probs": 1, "length": 1, "walkers": 1},
+           "after": {"cls": "GibbsChain", "samples": 26, "probs": 26, "length": 26, "walkers": 1, "pd": [[0, 0], [25, 3]], "ex": 0}}
+    ro = {"ev": "Readout", "cls": "GibbsChain", "call": "get_sample", "n": 9, "burn": 2, "thin": 3, "ids": [2, 5, 8], "ndim": 2}
+    cfgt = "SPECIFICATION TraceSpec\nCONSTRAINT Progress\nPOSTCONDITION TraceAccepted\nCHECK_DEADLOCK FALSE\n"
+
+    def bad_tr(recs):
+        r = _tlc_trace("TestRunTrace", recs, cfg_text=cfgt)
+        return bool(r.error or r.violated or r.printed)
+    record("TestRunTrace accepts a well-formed advance and read-out", not bad_tr([adv, ro]))
+    record("TestRunTrace reports an advance that stored one sample too few", bad_tr([dict(adv, after=dict(adv["after"], samples=25))]))
+    record("TestRunTrace reports a stored probability that is not the posterior at its sample", bad_tr([dict(adv, after=dict(adv["after"], pd=[[0, 0], [25, 5000]]))]))
+    record("TestRunTrace reports a stored sample 9 ulp outside its limits", bad_tr([dict(adv, after=dict(adv["after"], ex=9))]))
+    record("TestRunTrace reports a read-out that starts one row late", bad_tr([dict(ro, ids=[3, 6])]))
+
     allok = all(r["ok"] for r in results)
     os.makedirs(EVID, exist_ok=True)
     with open(os.path.join(EVID, "selftest.json"), "w") as fh:
